@@ -46,6 +46,9 @@ Model/MonC04.vos Model/MonC04.vok Model/MonC04.required_vos: Model/MonC04.v Mode
 Model/MonC07.vo Model/MonC07.glob Model/MonC07.v.beautified Model/MonC07.required_vo: Model/MonC07.v Model/Mon.vo
 Model/MonC07.vio: Model/MonC07.v Model/Mon.vio
 Model/MonC07.vos Model/MonC07.vok Model/MonC07.required_vos: Model/MonC07.v Model/Mon.vos
+Model/MonC08.vo Model/MonC08.glob Model/MonC08.v.beautified Model/MonC08.required_vo: Model/MonC08.v Model/Mon.vo Model/MonC07.vo
+Model/MonC08.vio: Model/MonC08.v Model/Mon.vio Model/MonC07.vio
+Model/MonC08.vos Model/MonC08.vok Model/MonC08.required_vos: Model/MonC08.v Model/Mon.vos Model/MonC07.vos
 Proofs/Framework.vo Proofs/Framework.glob Proofs/Framework.v.beautified Proofs/Framework.required_vo: Proofs/Framework.v Model/Mon.vo
 Proofs/Framework.vio: Proofs/Framework.v Model/Mon.vio
 Proofs/Framework.vos Proofs/Framework.vok Proofs/Framework.required_vos: Proofs/Framework.v Model/Mon.vos
@@ -85,6 +88,9 @@ Proofs/PC04.vos Proofs/PC04.vok Proofs/PC04.required_vos: Proofs/PC04.v Model/Mo
 Proofs/PC07.vo Proofs/PC07.glob Proofs/PC07.v.beautified Proofs/PC07.required_vo: Proofs/PC07.v Model/Mon.vo Model/MonC07.vo Proofs/Framework.vo Proofs/StoreLocks.vo Proofs/StorePromises.vo Proofs/StoreCallbacks.vo Proofs/Discipline.vo Proofs/SysInv.vo Proofs/Eqb.vo Proofs/PC16.vo Proofs/PC05.vo
 Proofs/PC07.vio: Proofs/PC07.v Model/Mon.vio Model/MonC07.vio Proofs/Framework.vio Proofs/StoreLocks.vio Proofs/StorePromises.vio Proofs/StoreCallbacks.vio Proofs/Discipline.vio Proofs/SysInv.vio Proofs/Eqb.vio Proofs/PC16.vio Proofs/PC05.vio
 Proofs/PC07.vos Proofs/PC07.vok Proofs/PC07.required_vos: Proofs/PC07.v Model/Mon.vos Model/MonC07.vos Proofs/Framework.vos Proofs/StoreLocks.vos Proofs/StorePromises.vos Proofs/StoreCallbacks.vos Proofs/Discipline.vos Proofs/SysInv.vos Proofs/Eqb.vos Proofs/PC16.vos Proofs/PC05.vos
+Proofs/PC08.vo Proofs/PC08.glob Proofs/PC08.v.beautified Proofs/PC08.required_vo: Proofs/PC08.v Model/Mon.vo Model/MonC07.vo Model/MonC08.vo Proofs/Framework.vo Proofs/StoreLocks.vo Proofs/StorePromises.vo Proofs/StoreCallbacks.vo Proofs/Discipline.vo Proofs/SysInv.vo Proofs/Eqb.vo Proofs/PC16.vo Proofs/PC05.vo Proofs/PC07.vo
+Proofs/PC08.vio: Proofs/PC08.v Model/Mon.vio Model/MonC07.vio Model/MonC08.vio Proofs/Framework.vio Proofs/StoreLocks.vio Proofs/StorePromises.vio Proofs/StoreCallbacks.vio Proofs/Discipline.vio Proofs/SysInv.vio Proofs/Eqb.vio Proofs/PC16.vio Proofs/PC05.vio Proofs/PC07.vio
+Proofs/PC08.vos Proofs/PC08.vok Proofs/PC08.required_vos: Proofs/PC08.v Model/Mon.vos Model/MonC07.vos Model/MonC08.vos Proofs/Framework.vos Proofs/StoreLocks.vos Proofs/StorePromises.vos Proofs/StoreCallbacks.vos Proofs/Discipline.vos Proofs/SysInv.vos Proofs/Eqb.vos Proofs/PC16.vos Proofs/PC05.vos Proofs/PC07.vos
 Props/C09.vo Props/C09.glob Props/C09.v.beautified Props/C09.required_vo: Props/C09.v Model/Mon.vo Model/MonC09.vo Proofs/StoreLocks.vo Proofs/Discipline.vo Proofs/SysInv.vo Proofs/PC09.vo
 Props/C09.vio: Props/C09.v Model/Mon.vio Model/MonC09.vio Proofs/StoreLocks.vio Proofs/Discipline.vio Proofs/SysInv.vio Proofs/PC09.vio
 Props/C09.vos Props/C09.vok Props/C09.required_vos: Props/C09.v Model/Mon.vos Model/MonC09.vos Proofs/StoreLocks.vos Proofs/Discipline.vos Proofs/SysInv.vos Proofs/PC09.vos
@@ -103,6 +109,9 @@ Props/C04.vos Props/C04.vok Props/C04.required_vos: Props/C04.v Model/Mon.vos Mo
 Props/C07.vo Props/C07.glob Props/C07.v.beautified Props/C07.required_vo: Props/C07.v Model/Mon.vo Model/MonC07.vo Proofs/StoreLocks.vo Proofs/StorePromises.vo Proofs/StoreCallbacks.vo Proofs/Discipline.vo Proofs/SysInv.vo Proofs/PC05.vo Proofs/PC07.vo
 Props/C07.vio: Props/C07.v Model/Mon.vio Model/MonC07.vio Proofs/StoreLocks.vio Proofs/StorePromises.vio Proofs/StoreCallbacks.vio Proofs/Discipline.vio Proofs/SysInv.vio Proofs/PC05.vio Proofs/PC07.vio
 Props/C07.vos Props/C07.vok Props/C07.required_vos: Props/C07.v Model/Mon.vos Model/MonC07.vos Proofs/StoreLocks.vos Proofs/StorePromises.vos Proofs/StoreCallbacks.vos Proofs/Discipline.vos Proofs/SysInv.vos Proofs/PC05.vos Proofs/PC07.vos
+Props/C08.vo Props/C08.glob Props/C08.v.beautified Props/C08.required_vo: Props/C08.v Model/Mon.vo Model/MonC07.vo Model/MonC08.vo Proofs/SysInv.vo Proofs/PC08.vo
+Props/C08.vio: Props/C08.v Model/Mon.vio Model/MonC07.vio Model/MonC08.vio Proofs/SysInv.vio Proofs/PC08.vio
+Props/C08.vos Props/C08.vok Props/C08.required_vos: Props/C08.v Model/Mon.vos Model/MonC07.vos Model/MonC08.vos Proofs/SysInv.vos Proofs/PC08.vos
 Props/C15.vo Props/C15.glob Props/C15.v.beautified Props/C15.required_vo: Props/C15.v Gen/Status.vo Spec/Front15.vo Model/Coro.vo
 Props/C15.vio: Props/C15.v Gen/Status.vio Spec/Front15.vio Model/Coro.vio
 Props/C15.vos Props/C15.vok Props/C15.required_vos: Props/C15.v Gen/Status.vos Spec/Front15.vos Model/Coro.vos
